@@ -283,6 +283,48 @@ def same_value(n, a, b):
     return show_value(n, a) == show_value(n, b)
 
 
+def canon_collections(n, v):
+    """What the real collections hold after decoding the element list v in input order: `set` nodes sorted by Rust Ord
+    without duplicates, `map` nodes sorted by key with the last entry for a key winning.  (The model prints `seq`/`map`
+    in input order; on input that did not come from the encoder the two differ only by this normalisation.)"""
+    k = n[0]
+    if k == "opt":
+        return None if v is None else ("S", canon_collections(n[1], v[1]))
+    if k in LISTY:
+        xs = [canon_collections(n[1], x) for x in v]
+        if k == "set":
+            d = {}
+            for x in xs:
+                d.setdefault(ord_key(n[1], x), x)
+            return [d[q] for q in sorted(d)]
+        return xs
+    if k == "arr":
+        return [canon_collections(n[2], x) for x in v]
+    if k in ("tup", "fields"):
+        return [canon_collections(t, x) for t, x in zip(n[1], v)]
+    if k in ("map", "umap"):
+        es = [(canon_collections(n[1], a), canon_collections(n[2], b)) for a, b in v]
+        if k == "map":
+            d = {}
+            for a, b in es:
+                d[ord_key(n[1], a)] = (a, b)
+            return [d[q] for q in sorted(d)]
+        return es
+    if k == "enum":
+        return ("V", v[1], canon_collections(n[1][v[1]], v[2]))
+    if k == "bound":
+        return ("V", v[1], canon_collections(n[1], v[2]) if v[1] < 2 else ())
+    if k == "tagged":
+        return canon_collections(n[2], v)
+    return v
+
+
+def has_sorted_collection(n):
+    if n[0] in ("set", "map"):
+        return True
+    return any(has_sorted_collection(x) for a in n[1:] for x in (a if isinstance(a, list) else [a]) if isinstance(x, tuple))
+
+
 # ----------------------------------------------------------------------------- Rust `Ord`
 
 def ord_key(n, v):
@@ -848,6 +890,8 @@ def prefixes(b, limit=None, rng=None):
 # ----------------------------------------------------------------------------- tokens (C07 token part)
 
 def half_to_f32_bits(h):
+    """f32 bit pattern `Decoder::f16` returns for the half pattern h (checked against the implementation for all 65536
+    patterns): exact widening; a signalling NaN comes back quieted, as in the `half` crate / IEEE 754 convertFormat."""
     s, e, m = (h >> 15) & 1, (h >> 10) & 31, h & 0x3ff
     if e == 0:
         if m == 0:
@@ -857,7 +901,7 @@ def half_to_f32_bits(h):
             m <<= 1; sh += 1
         return (s << 31) | ((113 - sh) << 23) | ((m & 0x3ff) << 13)
     if e == 31:
-        return (s << 31) | (0xff << 23) | (m << 13)
+        return (s << 31) | (0xff << 23) | (m << 13) | (0x00400000 if m else 0)
     return (s << 31) | ((e + 112) << 23) | (m << 13)
 
 
@@ -866,7 +910,9 @@ TOKEN_INT = {"u8": "u8", "u16": "u16", "u32": "u32", "u64": "u64", "i8": "i8", "
 HALF_B = [0x0000, 0x8000, 0x0001, 0x03ff, 0x0400, 0x3c00, 0xbc00, 0x7bff, 0x7c00, 0xfc00, 0x7e00, 0x7c01, 0xffff]
 
 
-def boundary_tokens():
+def boundary_tokens(lossy_f16=True):
+    """every Token variant at its boundary payloads; lossy_f16=False leaves out F16 payloads that are not the image of a half
+    (the encoder is documented as lossy for them)."""
     out = ["bool:T", "bool:F"] + list(NULLARY_TOKENS)
     for k in TOKEN_INT:
         out += [f"{k}:{v}" for v in int_boundaries(k, True)]
@@ -874,7 +920,8 @@ def boundary_tokens():
         out += [f"{k}:{v}" for v in int_boundaries("u64", True)]
     out += [f"simple:{v}" for v in range(256)]
     out += [f"f16:x{half_to_f32_bits(h):08x}" for h in HALF_B]
-    out += [f"f16:x{b:08x}" for b in F32_SPECIAL]                # not all half-representable: the encoder rounds, len stays 3
+    if lossy_f16:
+        out += [f"f16:x{b:08x}" for b in F32_SPECIAL]            # not all half-representable: the encoder rounds, len stays 3
     out += [f"f32:x{b:08x}" for b in F32_SPECIAL]
     out += [f"f64:x{b:016x}" for b in F64_SPECIAL]
     for m in list(range(0, 301)) + [65535, 65536]:
@@ -910,3 +957,11 @@ def rand_token(rng):
 
 def token_kind(tok):
     return tok.split(":", 1)[0]
+
+
+def same_token(a, b):
+    """Token equality as C01 states it: integer tokens by numeric value, everything else (floats bitwise) literally."""
+    ka, kb = token_kind(a), token_kind(b)
+    if ka in TOKEN_INT and kb in TOKEN_INT:
+        return int(a.split(":")[1]) == int(b.split(":")[1])
+    return a == b
